@@ -214,6 +214,38 @@ def symlink_level(ctx, viol, stats):
         pr.destroy()
 
 
+def shared_rule_scenario(ctx, viol, stats):
+    """One default rule builds several targets.  "Removing the chosen one causes the target to be rebuilt with the new
+    choice" holds for EACH of them, in whatever order and however many commands they are asked for afterwards — the
+    bookkeeping for the first target's new choice must not make the others look up to date."""
+    from proj import Project
+    for order in (["a.c", "b.c", "c.c"], ["c.c", "a.c", "b.c"]):
+        pr = Project()
+        try:
+            pr.write("default.c.do", 'echo "default.c 1=$1 2=$2"\n')
+            pr.write("default.do", 'echo "default 1=$1 2=$2"\n')
+            rc0, o, e = pr.run(["redo-ifchange", "a.c", "b.c", "c.c"])
+            pr.rm("default.c.do")
+            rcs = [pr.run(["redo-ifchange", t])[0] for t in order]
+            stats["shared_rule"] = stats.get("shared_rule", 0) + 1
+            bad = [(t, (pr.read(t) or b"").decode().strip()) for t in order if (pr.read(t) or b"").decode().strip() != "default 1=%s 2=%s" % (t, t)]
+            if rc0 != 0 or any(rcs) or bad:
+                p = write_replay("C13", "shared-rule", dict(kind="impl-monitor", clause="removing the chosen script causes the target to be rebuilt with the new choice", order=order, statuses=[rc0] + rcs, wrong=bad,
+                                                            scenario="default.c.do and default.do; redo-ifchange a.c b.c c.c; rm default.c.do; redo-ifchange of each target, one command each"))
+                viol.append(Violation("C13", p, "after default.c.do was removed, %s still holds %r (redo-ifchange exited %r); redo-whichdo names default.do" % (bad[0][0] if bad else "?", bad[0][1] if bad else "", rcs)))
+                return
+            # and the other way round: creating the higher-priority rule again rebuilds each of them
+            pr.write("default.c.do", 'echo "default.c again 1=$1 2=$2"\n')
+            rcs = [pr.run(["redo-ifchange", t])[0] for t in reversed(order)]
+            bad = [(t, (pr.read(t) or b"").decode().strip()) for t in order if (pr.read(t) or b"").decode().strip() != "default.c again 1=%s 2=%s" % (t, t[:-2])]
+            if any(rcs) or bad:
+                p = write_replay("C13", "shared-rule-back", dict(kind="impl-monitor", clause="creating a higher-priority script causes the target to be rebuilt with the new choice", order=order, statuses=rcs, wrong=bad))
+                viol.append(Violation("C13", p, "after default.c.do was created again, %s holds %r" % (bad[0][0] if bad else "?", bad[0][1] if bad else "")))
+                return
+        finally:
+            pr.destroy()
+
+
 def run(ctx):
     rng = random.Random(ctx["seed"])
     thorough = ctx["tier"] == "thorough"
@@ -252,6 +284,8 @@ def run(ctx):
             argv_level(ctx, viol, stats)
         if not viol:
             symlink_level(ctx, viol, stats)
+        if not viol:
+            shared_rule_scenario(ctx, viol, stats)
     ncand = sum(len(parse_cands(x) or []) for x in impl)
     return dict(evaluations=len(lines) + stats["placements"] * 2 + stats["reselect"] * 2,
                 distinct_nontrivial=len(set(l for l, r in zip(lines, impl) if r != "none" and r.count(",") >= 2)),
